@@ -992,6 +992,9 @@ def _behave(kind, param, args, feed):
         # keys of mixed numeric kinds that order fine among each other (Decimal is not a numbers.Real)
         k = keyof(args[0])
         return (decimal.Decimal(k) + decimal.Decimal("0.5"), float(k), fractions.Fraction(2 * k + 1, 2), k)[(k + param) % 4]
+    if kind == "nankey":
+        k = keyof(args[0])
+        return float("nan") if (type(k) is int and (k + param) % 3 == 1) else (float(k) if type(k) is int else k)
     if kind == "divnone":
         return (keyof(args[0]) // (param + 2)) or None
     if kind == "neg":
